@@ -69,6 +69,7 @@ type inputT struct {
 	B  int    `json:"b,omitempty"`
 	Ev *evT   `json:"ev,omitempty"`
 	T  *node  `json:"t,omitempty"`
+	T2 *node  `json:"t2,omitempty"` // frame2: what the root draws at the second layout of the tick
 	C  *cmdT  `json:"c,omitempty"`
 }
 
@@ -220,6 +221,8 @@ type env struct {
 	// app mode
 	mu       sync.Mutex
 	curTree  *node
+	curTree2 *node // drawn from the second layout of a tick on (nil: curTree again)
+	frameDraws int // layouts since the last gated Draw (= in the current tick)
 	draws    int
 	gateDraw bool          // the next Draw of the root blocks
 	drawn    chan struct{} // signalled by a gated Draw
@@ -252,7 +255,14 @@ func (w *plainW) Draw(ctx vxfw.DrawContext) (vxfw.Surface, error) {
 	e.draws++
 	gate := e.gateDraw
 	e.gateDraw = false
+	if gate {
+		e.frameDraws = 0
+	}
 	t := e.curTree
+	if e.frameDraws >= 1 && e.curTree2 != nil {
+		t = e.curTree2
+	}
+	e.frameDraws++
 	e.mu.Unlock()
 	if gate {
 		e.drawn <- struct{}{}
@@ -454,9 +464,11 @@ type treeOpts struct {
 	huge     bool // sizes and offsets near the uint16 limits
 	popup    bool // a full-size panel below floating surfaces that lie inside the parent (overlaps are the rule)
 	universe int
+	spare    int // the last [spare] ids of the universe are not used by genTree (wrappers, panels, swapped ancestors)
 }
 
 func genTree(r *rand.Rand, o treeOpts, rootID int) *node {
+	o.universe -= o.spare
 	next := 0
 	fresh := func() int {
 		if o.dup && next > 1 && r.Intn(5) == 0 {
@@ -822,6 +834,7 @@ type dplan struct {
 	family    string
 	hotMouse  int // percent of the mouse events aimed at a cell under overlapping siblings (if there is one)
 	resize    int // percent of the steps that are a redraw-path update with a root surface of another size
+	swap      int // percent of the steps that are a tick showing a changed tree (ancestor swapped / wrapped / panel) while the pointer rests
 }
 
 func pickMouse(r *rand.Rand, t *node) (int, int) {
@@ -885,9 +898,29 @@ func genDirect(r *rand.Rand, p dplan) *dcase {
 	}
 	lastFocus := root
 	prev := cur // the frame before the last change of the root surface's size
+	var lastM *[2]int // where the mouse handler saw the pointer last
 	for len(c.Inputs) < p.steps {
 		var i inputT
 		x := r.Intn(100)
+		if p.swap > 0 && r.Intn(100) < p.swap {
+			if lastM == nil {
+				col, row := deepCell(r, cur)
+				lastM = &[2]int{col, row}
+				add(inputT{K: "mouse", A: col, B: row})
+			}
+			kind := r.Intn(2)
+			if nt := changeTree(r, cur, lastM, lastFocus, u, capt, kind); nt != nil {
+				// the frame case of App.Run with the pointer at rest
+				cur = nt
+				cmds.focusTargets = treeIDs(cur, nil)
+				add(inputT{K: "update", T: cur})
+				add(inputT{K: "render", T: cur})
+				if r.Intn(4) != 0 {
+					add(inputT{K: "mouse", A: lastM[0], B: lastM[1]})
+				}
+				continue
+			}
+		}
 		if p.resize > 0 && r.Intn(100) < p.resize {
 			// the frame case of App.Run after the root surface changed its size while the
 			// pointer rests: update(new frame), then (mostly) render + updatePath + lastFrame
@@ -954,6 +987,11 @@ func genDirect(r *rand.Rand, p dplan) *dcase {
 		default:
 			cc := genCmd(r, &cmds, 3, true)
 			i = inputT{K: "cmd", C: &cc}
+		}
+		if i.K == "mouse" {
+			lastM = &[2]int{i.A, i.B}
+		} else if i.K == "clearmouse" {
+			lastM = nil
 		}
 		o := add(i)
 		if o.Snap.Focused != lastFocus {
@@ -1381,6 +1419,17 @@ func main() {
 			p.resize = 15 + r.Intn(30)
 			p.quiet = 60 + r.Intn(38)
 			p.startBare = false
+		case n >= nDirect-4*nFam:
+			// the tree changes between two ticks while the pointer rests: an ancestor of the
+			// widget under the pointer is another widget at the same depth and offset (a widget
+			// instance shared by two parents), a wrapper appears or goes, a panel comes or goes
+			p.family = "tree-change"
+			p.tree.dup, p.tree.huge, p.tree.overlap = false, false, r.Intn(4) == 0
+			p.tree.universe = 8 + r.Intn(5)
+			p.tree.spare = 3
+			p.swap = 20 + r.Intn(30)
+			p.quiet = 70 + r.Intn(28)
+			p.startBare = false
 		}
 		p.cmds.universe = p.tree.universe
 		c := genDirect(r, p)
@@ -1422,6 +1471,43 @@ func main() {
 	wg.Wait()
 	for _, c := range res {
 		appS.Add(c.term(), c, c.nontriv, c.tags...)
+	}
+
+	// ---- frames stream: App.Run observed per input, ticks with two different layouts
+	nFrames := 150
+	if cfg.Thorough() {
+		nFrames = 2000
+	}
+	framesS := hx.NewStream("frames", "model.Route", "fcase", "c15_frames_mismatches", "c15_frames_violations")
+	framesS.ShardMax = 50
+	{
+		type fjob struct {
+			seed int64
+			p    fplan
+		}
+		fjobs := make([]fjob, nFrames)
+		for n := range fjobs {
+			fjobs[n] = fjob{seed: r.Int63(), p: fplan{
+				universe: 8 + r.Intn(5), overlap: r.Intn(5) == 0, segments: 3 + r.Intn(4), perSeg: 1 + r.Intn(4),
+				captRate: 30 + r.Intn(50), relayout: 30 + r.Intn(40), change: 20 + r.Intn(20),
+				hoverRed: 30 + r.Intn(50), focusKey: 10 + r.Intn(25)}}
+		}
+		fres := make([]*fcase, nFrames)
+		var fwg sync.WaitGroup
+		fsem := make(chan struct{}, 12)
+		for n := range fjobs {
+			fwg.Add(1)
+			fsem <- struct{}{}
+			go func(n int) {
+				defer fwg.Done()
+				defer func() { <-fsem }()
+				fres[n] = execFrames(rand.New(rand.NewSource(fjobs[n].seed)), fjobs[n].p)
+			}(n)
+		}
+		fwg.Wait()
+		for _, c := range fres {
+			framesS.Add(c.term(), c, c.nontriv, c.tags...)
+		}
 	}
 
 	// ---- finding streams: witnesses of the recorded findings replayed on the real code
@@ -1506,7 +1592,7 @@ func main() {
 	}
 
 	cfg.Write("C15",
-		"direct: a case is nontrivial when at least one handler call was made; app: when more than the two calls every history has were made; kf_*: the witnesses of the recorded findings and random histories of their class, checked without the guards",
-		[]*hx.Stream{direct, appS, kfStale, kfOverlap, kfFocusOut, kfDup, kfTerm},
-		map[string]interface{}{"direct_cases": nDirect, "app_cases": nApp, "vaxis_close_hangs_tolerated": int(atomic.LoadInt32(&closeHangs))}, nil)
+		"direct: a case is nontrivial when at least one handler call was made; app, frames: when more than the two calls every history has were made; kf_*: the witnesses of the recorded findings and random histories of their class, checked without the guards",
+		[]*hx.Stream{direct, appS, framesS, kfStale, kfOverlap, kfFocusOut, kfDup, kfTerm},
+		map[string]interface{}{"direct_cases": nDirect, "app_cases": nApp, "frames_cases": nFrames, "vaxis_close_hangs_tolerated": int(atomic.LoadInt32(&closeHangs))}, nil)
 }
